@@ -476,7 +476,7 @@ outcome_t check_solve(const prog_t& P, const truth_t& T, const start_t& S, const
     ctx.maximum("inequality residual / allowance", r_in);
     ctx.maximum("objective mismatch / allowance (elementary terms)", std::min(r_fx, 1e300));
     ctx.maximum("objective mismatch / allowance (aggregate terms; F5 watch, not a verdict)",
-                res_fx <= 1e-6 * agg ? (agg > 0.0 ? res_fx / (1e-6 * agg) : 0.0) : std::min(res_fx / std::max(1e-6 * agg, 1e-300), 1e300));
+                res_fx <= 1e-6 * agg ? (agg > 0.0 ? res_fx / (1e-6 * agg) : 0.0) : std::min(res_fx / std::max(1e-6 * agg, 1e-300), 1e12));
     ctx.maximum("optimality gap / allowance", r_opt);
     ctx.label_if(res_fx > 1e-6 * agg, "objective-mismatch-above-aggregate-allowance");
 
